@@ -131,8 +131,10 @@ def _chart(rng, tempo, t0, ty, keys, heavy):
     c = {k: [] for k in G.SIMPLE + G.HOLDS}
     pos = _positions(rng, tempo, n, max_beat)
     if heavy:     # one measure with denominators whose LCM exceeds 384 rows
+        # relative to the LAST tempo change (the snap grid is relative to the active change, not to the measure line: with a
+        # mid-measure last change, positions "measure line + j/d" would be off the grid and the case outside the domain)
         last = tempo[-1][0]
-        base = Fr(-((-last) // 4) * 4) + 4 * rng.choice([0, 1])
+        base = last + 4 * rng.choice([0, 1])
         pos += [base + Fr(1, 5), base + Fr(2, 7), base + Fr(3, 32), base + 1 + Fr(1, 9)]
     # in a measure that needs more than 384 rows (also reachable by chance: denominators 7, 9, 11 in one measure), objects are
     # written in row floor(position * 384) of their measure (96 rows per beat): two objects of one column closer than a row would
